@@ -12,6 +12,7 @@ strings in hex, `-` = empty):
   sq <n>                     Squeeze(y), len(y) = n                  -> y
   sqk <n>                    SqueezeKey(y)                           -> y | panic
   ratchet                    Ratchet()                               -> ok | panic
+  new ; op ; op ; …          a whole transcript as one case                   -> out;out;…
 Vector replay: an operation may carry a last word `=<value>`, the value published in
 `cyclist/testdata`; the model ignores it, the harness answers `<own output> !vector` when the real
 code's output differs from it (so a deviation of either side from the vector shows in the diff).
@@ -42,7 +43,7 @@ def parse : List String → Option Op
   | ["ratchet"] => some .ratchet
   | _ => none
 
-def stepLine (st : St) (ws : List String) : St × String :=
+def stepOne (st : St) (ws : List String) : St × String :=
   match stripExpect ws with
   | ["new"] => ({ c := Cyclist.empty }, "ok")
   | ws =>
@@ -51,6 +52,11 @@ def stepLine (st : St) (ws : List String) : St × String :=
       let r := step Keccak.f12 st.c op
       ({ c := r.1 }, render r.2)
     | none => (st, "bad-op")
+
+def stepLine (st : St) (ws : List String) : St × String :=
+  match ws with
+  | "new" :: ";" :: rest => runScript stepOne st rest
+  | _ => stepOne st ws
 
 def main (_ : List String) : IO Unit := loopLines stepLine { c := Cyclist.empty }
 
